@@ -41,6 +41,9 @@ type Eval struct {
 func (f *Eval) Call(s *slip.Scope, args slip.List, depth int) (result slip.Object) {
 	slip.CheckArgCount(s, depth, f, args, 1, 1)
 	result = slip.EvalArg(s, args, 0, depth+1)
-
+	if vs, ok := result.(slip.Values); ok {
+		// The form is the primary value, (eval (read-from-string "(+ 1 2)")).
+		result = vs.First()
+	}
 	return s.Eval(result, depth+1)
 }
